@@ -2,6 +2,7 @@ package main
 
 import (
 	"bufio"
+	"runtime"
 	"encoding/json"
 	"flag"
 	"fmt"
@@ -177,6 +178,7 @@ func workerMain(args []string) {
 		out.Flush()
 		os.Exit(2)
 	}
+	runtime.GOMAXPROCS(1)
 	enc.Encode(&Result{ID: -1, Harness: "loaded", WallS: ld.loadS})
 	out.Flush()
 	in := bufio.NewReaderSize(os.Stdin, 1<<20)
